@@ -216,7 +216,7 @@ FACETS = [
           nontrivial=lambda c: R.tlsh_model(c["data"], c["buckets"], c["window"], c["chklen"], c["force"]) is not None, classify=classify_tlsh,
           rule="random configuration; data 0..1500 (4000) bytes with the gate lengths emphasised; random / 1-4 symbol alphabets / long runs / text-like; "
                "digest == model, None for short or uniform input, re-loading reproduces header fields and bytes"),
-    Facet("distance-arbitrary-digests", check_distance, strategy=distance_strategy, budget={"quick": 1500, "thorough": 40000},
+    Facet("distance-arbitrary-digests", check_distance, strategy=distance_strategy, budget={"quick": 1500, "thorough": 40000}, fuzz={"thorough": 100000},
           shards={"quick": 16, "thorough": 32}, nontrivial=lambda c: c["x"] != c["y"], classify=lambda c: ("buckets=%d" % c["buckets"], "chklen=%d" % c["chklen"]),
           rule="arbitrary byte strings of a valid digest length (independent, one byte apart, identical): from_hash round trip, d >= 0 int, d == model, "
                "symmetric, d(x,x) == 0, equal across object/object, bytes/bytes, object/bytes, bytes/object, distance_to, lvalue=False"),
